@@ -80,6 +80,7 @@ example : restoreF (extractF (fun f => f ++ "!") (fun _ => "")).1 (extractF (fun
     (Before /repo commit 6f37a10 `cwd` and `umask` were missing and only a `_partial` version held.) -/
 theorem child_process_copy (ppid : Nat) (p : Proc) :
     (∀ f ∈ specCopied, isCopied implCopied f.1 = true)
+    ∧ isCopied implCopied "resource_limits" = true
     ∧ (Proc.forkFrom implCopied ppid p).fds = p.fds
     ∧ (Proc.forkFrom implCopied ppid p).cwd = p.cwd
     ∧ (Proc.forkFrom implCopied ppid p).umask = p.umask
@@ -91,7 +92,7 @@ theorem child_process_copy (ppid : Nat) (p : Proc) :
   have h3 : isCopied implCopied "blocked_signals" = true := by decide
   have h4 : isCopied implCopied "cwd" = true := by decide
   have h5 : isCopied implCopied "umask" = true := by decide
-  exact ⟨h0, by simp [Proc.forkFrom, h1, h2, h3, h4, h5]⟩
+  exact ⟨h0, by decide, by simp [Proc.forkFrom, h1, h2, h3, h4, h5]⟩
 
 /-- the child of a parent in `/d1` with umask 027 -/
 example : (Proc.forkFrom implCopied 2 { initialEnv.system with cwd := "/d1", umask := "027" }).cwd = "/d1"
@@ -147,6 +148,84 @@ example : { (runKind implCopied .paren { env := initialEnv }
       (fun c => applyOps c [.set "va" "1", .cd "/d1", .bg]) []).env with exitStatus := 0 }
     = { initialEnv with exitStatus := 0 } :=
   sync_subshell_isolated implCopied .paren { env := initialEnv } _ rfl (by decide)
+
+/-- "Every subshell construct occurring anywhere in the program, at any nesting depth, leaves its starter's
+    state as the starter itself made it": the predicate, by recursion on the program. -/
+def AllIsolated (copied : List (String × String)) : Prog → Prop
+  | .ops _ => True
+  | .snap _ _ => True
+  | .ok => True
+  | .exitTrap => True
+  | .seq a b => AllIsolated copied a ∧ AllIsolated copied b
+  | .sub k body during =>
+    (∀ sh : Shell, sh.halted = none →
+        { (runProg copied (.sub k body during) sh).env with exitStatus := 0 }
+          = { (parentSide k sh.env during).env with exitStatus := 0 })
+    ∧ AllIsolated copied body
+
+/-- ★★ Isolation for EVERY program of the modelled fragment (mutators, snapshots, `$?` steps, subshell
+    constructs of all six kinds — job-controlled or not —, sequenced and nested to ANY depth, with the starter's
+    own mutators between `&` and `wait`): at every occurrence of a subshell construct, from every live starting
+    shell, the starter's whole state afterwards (variables, positional parameters, functions, aliases, options,
+    traps, fd table, cwd, umask, dispositions, stack, …) equals what the starter itself made of the state before
+    (`parentSide`: nothing for a synchronous kind; for `&` its own job entry / `$!`, its own mutators, the removal
+    of the finished job), except `$?` — whatever the body, itself any program of the fragment, does.
+    By induction on the program; the output is not part of the state (it is in `Shell.events`). -/
+theorem subshell_isolated_nested (copied : List (String × String)) : ∀ p : Prog, AllIsolated copied p := by
+  intro p
+  induction p with
+  | ops _ => trivial
+  | snap _ _ => trivial
+  | ok => trivial
+  | exitTrap => trivial
+  | seq a b iha ihb => exact ⟨iha, ihb⟩
+  | sub k body during ih =>
+    exact ⟨fun sh h => subshell_isolated copied k sh (runProg copied body) during h, ih⟩
+
+/-- the programs the sweep runs are in the fragment, so all their levels are isolated (depth 1, 2, 3, …) -/
+theorem case_levels_isolated (copied : List (String × String)) (c : Case) : AllIsolated copied (caseProg c) :=
+  subshell_isolated_nested copied (caseProg c)
+
+example : AllIsolated implCopied
+    (.sub .paren (.seq (.ops [.set "va" "1"]) (.sub .async (.sub .subst (.ops [.cd "/d1", .bg]) []) [])) []) :=
+  subshell_isolated_nested _ _
+
+/-- ★ "The parent observes only the exit status (and the output)": two bodies whose child processes end with
+    the same status — exited or killed — leave the starter in the same state, halted or not in the same way;
+    only the output (`events`) can differ. -/
+theorem parent_observes_only_status (copied : List (String × String)) (k : Kind) (sh : Shell)
+    (body1 body2 : Shell → Shell) (during : List Op)
+    (hs : (childShell copied k sh body1).halted.getD (childShell copied k sh body1).env.exitStatus
+        = (childShell copied k sh body2).halted.getD (childShell copied k sh body2).env.exitStatus) :
+    (runKind copied k sh body1 during).env = (runKind copied k sh body2 during).env
+    ∧ (runKind copied k sh body1 during).halted = (runKind copied k sh body2 during).halted := by
+  unfold runKind
+  by_cases h : sh.halted.isSome
+  · simp [h]
+  · simp only [h, Bool.false_eq_true, if_false, startKind_parent, hs]
+    constructor
+    · simp only [finishKind_env]
+    · simp only [finishKind_halted]
+
+/-- ★ The parent's side of an asynchronous list without mutators of its own: when the identities in the job
+    table are fresh (always the case for a table built by `Jobs.add`), the only thing that changes in the
+    starter is `$!` (and the identity counter): the job list is the one before, the job of the `&` having been
+    entered and removed again by `wait $!`. -/
+theorem async_parent_side (env : Env) (hfresh : ∀ e ∈ env.jobs.list, e.2.1 ≠ env.jobs.next) :
+    (parentSide .async env []).env
+      = { env with jobs := { env.jobs with last := some env.jobs.next, next := env.jobs.next + 1 } } := by
+  have hl : (env.jobs.list ++ [(env.jobs.freeNumber, env.jobs.next, true)]).filter
+      (fun e => decide (e.2.1 ≠ env.jobs.next)) = env.jobs.list := by
+    have h1 : env.jobs.list.filter (fun e => decide (e.2.1 ≠ env.jobs.next)) = env.jobs.list := by
+      apply List.filter_eq_self.mpr
+      intro e he
+      simpa using hfresh e he
+    rw [List.filter_append, h1]
+    simp [List.filter]
+  show ({ (applyOps { env := { env with jobs := env.jobs.add } } []) with
+          env := { (applyOps { env := { env with jobs := env.jobs.add } } []).env with
+            jobs := (applyOps { env := { env with jobs := env.jobs.add } } []).env.jobs.removeLast } } : Shell).env = _
+  simp only [applyOps, List.foldl_nil, Jobs.add, Jobs.removeLast, hl]
 
 /-- ★ A child that ENDS BY A SIGNAL: for every synchronous kind of subshell, whenever the situation is not the
     documented top-level interactive Trap.SIGINT one — the starting shell is itself a subshell (any level >= 1), or
@@ -311,5 +390,81 @@ example :
     ∧ ((Trap.get (subshellEntry false true env).traps Trap.SIGQUIT).map (·.current.action)) = some .ignore
     ∧ ((Trap.get (subshellEntry true true env).traps Trap.SIGINT).map (·.current.action)) = some .ignore := by
   decide
+
+/-- ★ Trap reset for EVERY kind of subshell, job-controlled or not (the job-controlled pipeline enters twice):
+    in the environment the task starts from, no condition has a command action, and a condition the starter
+    ignored is still ignored. -/
+theorem kind_entry_traps (copied : List (String × String)) (k : Kind) (jc : Bool) (env : Env) :
+    (∀ c g', Trap.get (entryEnv copied k jc env).traps c = some g' → g'.current.action.isCommand = false)
+    ∧ (∀ c g, Trap.get env.traps c = some g → g.current.action = .ignore →
+        ∃ g', Trap.get (entryEnv copied k jc env).traps c = some g' ∧ g'.current.action = .ignore) := by
+  have one : ∀ (ii ks : Bool) (e : Env),
+      (∀ c g', Trap.get (subshellEntry ii ks (forkedCopy copied e)).traps c = some g' →
+          g'.current.action.isCommand = false)
+      ∧ (∀ c g, Trap.get e.traps c = some g → g.current.action = .ignore →
+          ∃ g', Trap.get (subshellEntry ii ks (forkedCopy copied e)).traps c = some g'
+            ∧ g'.current.action = .ignore) := by
+    intro ii ks e
+    exact ⟨(subshell_traps_reset ii ks (forkedCopy copied e)).1,
+           (subshell_traps_reset ii ks (forkedCopy copied e)).2.1⟩
+  have two : (∀ c g', Trap.get (subshellEntry false true (forkedCopy copied
+        (subshellEntry false false (forkedCopy copied env)))).traps c = some g' →
+          g'.current.action.isCommand = false)
+      ∧ (∀ c g, Trap.get env.traps c = some g → g.current.action = .ignore →
+          ∃ g', Trap.get (subshellEntry false true (forkedCopy copied
+            (subshellEntry false false (forkedCopy copied env)))).traps c = some g'
+            ∧ g'.current.action = .ignore) := by
+    refine ⟨(one false true _).1, ?_⟩
+    intro c g hg hi
+    obtain ⟨g1, hg1, hi1⟩ := (one false false env).2 c g hg hi
+    exact (one false true _).2 c g1 hg1 hi1
+  cases k <;> cases jc <;>
+    simp only [entryEnv, Bool.not_true, Bool.not_false, if_true, Bool.false_eq_true, if_false] <;>
+    first | exact two | exact one _ _ env
+
+/-- ★ Copy on entry for EVERY kind: besides the plumbing of the kind (fd 0 / fd 1) the task of the subshell
+    starts with the starter's aliases, functions, options, variables and positional parameters, `$?`, `$!`. -/
+theorem kind_entry_copy (copied : List (String × String)) (k : Kind) (jc : Bool) (env : Env) :
+    (entryEnv copied k jc env).aliases = env.aliases
+    ∧ (entryEnv copied k jc env).functions = env.functions
+    ∧ (entryEnv copied k jc env).options = env.options
+    ∧ (entryEnv copied k jc env).variables = env.variables
+    ∧ (entryEnv copied k jc env).exitStatus = env.exitStatus
+    ∧ (entryEnv copied k jc env).jobs.last = env.jobs.last := by
+  cases k <;> cases jc <;> exact ⟨rfl, rfl, rfl, rfl, rfl, rfl⟩
+
+/-- ★ … and at process level, for the code as it is (generated `processForkMap`): the task of EVERY kind
+    starts with the starter's fd table, working directory and umask (before the kind's own plumbing of fd 0/1). -/
+theorem kind_entry_process (k : Kind) (jc : Bool) (env : Env) :
+    (entryEnv implCopied k jc env).system.fds = env.system.fds
+    ∧ (entryEnv implCopied k jc env).system.cwd = env.system.cwd
+    ∧ (entryEnv implCopied k jc env).system.umask = env.system.umask := by
+  have cp := fun (n : Nat) (p : Proc) => (child_process_copy n p).2.2
+  have step : ∀ (ii ks : Bool) (e : Env),
+      (subshellEntry ii ks (forkedCopy implCopied e)).system.fds = e.system.fds
+      ∧ (subshellEntry ii ks (forkedCopy implCopied e)).system.cwd = e.system.cwd
+      ∧ (subshellEntry ii ks (forkedCopy implCopied e)).system.umask = e.system.umask := by
+    intro ii ks e
+    exact ⟨(cp e.mainPid e.system).1, (cp e.mainPid e.system).2.1, (cp e.mainPid e.system).2.2.1⟩
+  have two : (subshellEntry false true (forkedCopy implCopied
+        (subshellEntry false false (forkedCopy implCopied env)))).system.fds = env.system.fds
+      ∧ (subshellEntry false true (forkedCopy implCopied
+        (subshellEntry false false (forkedCopy implCopied env)))).system.cwd = env.system.cwd
+      ∧ (subshellEntry false true (forkedCopy implCopied
+        (subshellEntry false false (forkedCopy implCopied env)))).system.umask = env.system.umask := by
+    obtain ⟨a1, a2, a3⟩ := step false false env
+    obtain ⟨b1, b2, b3⟩ := step false true (subshellEntry false false (forkedCopy implCopied env))
+    exact ⟨b1.trans a1, b2.trans a2, b3.trans a3⟩
+  cases k <;> cases jc <;>
+    simp only [entryEnv, Bool.not_true, Bool.not_false, if_true, Bool.false_eq_true, if_false] <;>
+    first | exact two | exact step _ _ env
+
+/-- What ties the three `kind_entry_*` theorems to the run: the child process of a subshell of kind `k` is the
+    body applied to `entryEnv` (+ the kind's plumbing of fd 0/1), followed by its EXIT trap. -/
+theorem child_starts_from_entry (copied : List (String × String)) (k : Kind) (sh : Shell) (body : Shell → Shell) :
+    childShell copied k sh body
+      = runExitTrap (body { env := plumb k (controlsJobs sh.env) (entryEnv copied k (controlsJobs sh.env) sh.env) }) := by
+  unfold childShell
+  rw [startKind_child]
 
 end YashModel.Fork
